@@ -1,14 +1,16 @@
 #!/venv/bin/python
 """Confirm a seeded change delivered by a sub-agent in /tmp/wt/<ID>/_seed and store it under
 /verif/seeded/<ID>-<N>/ : demo passes on the clean tree, fails with the patch, and every test of the
-pinned stable baseline still passes with the patch.  usage: verify_seed.py C01 1"""
+pinned stable baseline still passes with the patch.  usage: verify_seed.py C01 1 [out-number]
+(WT_ROOT overrides the directory holding the sub-agents' worktrees)"""
 import ast, json, os, shutil, subprocess, sys, tempfile
 import xml.etree.ElementTree as ET
 
 pid, n = sys.argv[1], sys.argv[2]
-wt = "/tmp/wt/%s" % pid
+outn = sys.argv[3] if len(sys.argv) > 3 else n
+wt = "%s/%s" % (os.environ.get("WT_ROOT", "/tmp/wt"), pid)
 seed = os.path.join(wt, "_seed")
-out = "/verif/seeded/%s-%s" % (pid, n)
+out = "/verif/seeded/%s-%s" % (pid, outn)
 
 
 def sh(cmd, **kw):
@@ -40,7 +42,7 @@ def baseline():
     return sorted(stable - passed)
 
 
-res = {"id": "%s-%s" % (pid, n)}
+res = {"id": "%s-%s" % (pid, outn)}
 sh("git checkout -- . && git clean -fdq -e _seed")
 rc0, o0 = demo()
 res["demo_clean_rc"] = rc0
@@ -59,7 +61,8 @@ if ok:
     shutil.copy(os.path.join(seed, "patch%s.diff" % n), os.path.join(out, "patch.diff"))
     shutil.copy(os.path.join(seed, "demo%s.py" % n), os.path.join(out, "demo.py"))
     for extra in os.listdir(seed):
-        if extra.startswith("stub") or extra.endswith("_stub.py") or os.path.isdir(os.path.join(seed, extra)):
+        helper = (extra.endswith(".py") and not extra.startswith("demo")) or extra.endswith(".mjs") or extra.endswith(".ipynb")
+        if extra.startswith("stub") or helper or os.path.isdir(os.path.join(seed, extra)):
             src = os.path.join(seed, extra)
             dst = os.path.join(out, extra)
             if os.path.isdir(src):
